@@ -83,6 +83,16 @@ def cases(rng, tier):
             c = "RR %s 0" % bad.hex()
             INFO[c] = ("rej", "OPT", "option length overrunning the RDATA")
             out.append(c)
+    # RFC forms the public structs cannot hold (known findings F25, F30)
+    for k in range(3):
+        addr = dns.gen_cstr(rng)[:30] or b"150862028003217"
+        c = "RR %s 0" % rr_wire([b"isdn", b"example"], 20, 1, 60, bytes([len(addr)]) + addr).hex()
+        INFO[c] = ("rfcform", "isdn-optional-sa", "ISDN RDATA with the optional <sa> omitted (RFC 1183 3.2)")
+        out.append(c)
+        n = rng.choice([1, 7, 13, 19])
+        c = "RR %s 0" % rr_wire([b"nsap", b"example"], 22, 1, 60, b"\x47" + rng.bytes(n - 1)).hex()
+        INFO[c] = ("rfcform", "nsap-fixed-20", "NSAP RDATA of %d octets (RFC 1706 5: variable length)" % n)
+        out.append(c)
     for path in sorted(glob.glob("/repo/simple-dns/samples/zonefile/*.sample")):
         d = open(path, "rb").read()
         c = "RR %s 0" % d.hex()
@@ -126,6 +136,9 @@ def oracle(case, out):
     elif info[0] == "rej":
         if not out.startswith("ERR"):
             return "%s with a broken %s was accepted: %r" % (info[1], info[2], out[:300])
+    elif info[0] == "rfcform":
+        if not out.startswith("OK"):
+            return "%s is valid per its RFC but was rejected: %r [%s]" % (info[2], out, info[1])
     elif info[0] == "sample":
         if not out.startswith("OK "):
             return "third-party sample %s rejected: %r" % (info[1], out)
@@ -150,4 +163,5 @@ def oracle(case, out):
 
 
 def matches_known(key, case, out, failure):
-    return False
+    info = INFO.get(case)
+    return bool(info) and info[0] == "rfcform" and info[1] == key and out.startswith("ERR")
